@@ -4522,6 +4522,9 @@ class ParseCtx:
                 'r': '\r',
                 't': '\t',
                 'b': '\b',
+                'a': '\a',
+                'f': '\f',
+                'v': '\v',
                 '0': '\x00',
                 '\'': '\''
             }.get(char_const[2], char_const[2])
